@@ -457,8 +457,8 @@ def small_loop_program(r):
 
 
 def plan(tier, seed, scale=1.0):
-    nflow = int((200 if tier == 'quick' else 6000) * scale)
-    nsmall = int((220 if tier == 'quick' else 6000) * scale)
+    nflow = int((200 if tier == 'quick' else 4500) * scale)
+    nsmall = int((220 if tier == 'quick' else 5000) * scale)
     nproj = int((400 if tier == 'quick' else 8000) * scale)
     per = 10 if tier == 'quick' else 50
     groups = [[{'kind': 'file', 'path': fpath, 'seed': seed, 'tier': tier} for fpath in real_files(tier, seed)]]
